@@ -5,6 +5,8 @@ Pool == {[named |-> TRUE, rc |-> 0, writes |-> {}], [named |-> FALSE, rc |-> 0, 
          [named |-> TRUE, rc |-> 3, writes |-> {"f2.bin"}], [named |-> TRUE, rc |-> 0, writes |-> {"f1.txt", "f2.bin"}],
          [named |-> FALSE, rc |-> 1, writes |-> {}],
          [named |-> TRUE, rc |-> 137, writes |-> {"f1.txt"}]}     \* rc 137: the command is killed by a signal (kill -9 $$)
+FormsAll == {"full", "nofiles_none", "nofiles_empty", "noenv_none", "noenv_empty", "noret_none", "noret_empty"}
+FormsQ == {"full", "nofiles_none", "noenv_empty", "noret_none"}
 DevNone == {}
 DevContinue == {"ContinueAfterFailure"}
 DevExitF == {"ExitIgnoresFailure"}
@@ -13,6 +15,6 @@ DevKeep == {"KeepScratch"}
 View == sv
 (* one edge per complete run: the emitter only prints the Collect step, with the job and its result *)
 Emit == IF last'.act = "collect"
-          THEN PrintT(ToJson([from |-> <<"init">>, act |-> [act |-> "run", cmds |-> cmds], to |-> <<"done", cmds>>, obs |-> result']))
+          THEN PrintT(ToJson([from |-> <<"init">>, act |-> [act |-> "run", cmds |-> cmds, form |-> form], to |-> <<"done", cmds, form>>, obs |-> result']))
           ELSE TRUE
 =============================================================================
